@@ -4,7 +4,7 @@ import hashlib
 from . import common, cons, hand, hist, place, universe, xt
 
 PID = "C05"
-FORMS = ["py", "nd", "ndF", "ndD", "ndFD", "ndTD", "cap", "xobj-other"] + cons.LEN
+FORMS = ["py", "nd", "ndF", "ndD", "ndFD", "ndTD", "cap", "xobj-other", "xobj-nested-lastslack"] + cons.LEN
 
 
 def places_for(tier):
